@@ -1,4 +1,5 @@
 import PasslibVerif.Props.C01
+import PasslibVerif.Gen.Verify
 /-
 C05 — size limits.  For ANY hasher in the shape of `Model.Verify.Hasher`: what `truncate_error`, the library-wide maximum and the
 NUL refusal do in `hash` and `verify`.  That a format's algorithm really reads only the first `n` bytes (`ReadsOnly n`) is a fact
@@ -129,4 +130,15 @@ example : ReadsOnly toy8 8 := fun b p => by simp [toy8, List.take_take]
 example : hashSecret toy8 (.bytes [1, 2, 3, 4, 5, 6, 7, 8, 9]) { ident := [36] } = .error .truncateError := by decide
 example : verify toy8 (.bytes [1, 2, 3, 4, 5, 6, 7, 8, 9]) [36, 49, 50, 51, 52, 53, 54, 55, 56] = .ok true := by decide
 
+end Props.C05
+
+namespace Props.C05
+/-- the model's library-wide maximum is the one the running library uses -/
+theorem max_password_size_is_the_librarys : Model.Verify.MAX_PASSWORD_SIZE = Gen.Verify.maxPasswordSize := by decide
+
+/-- every shipped hasher with a truncation limit either applies `TruncateMixin`'s policy from hash() only (the generic model's shape) and
+    does not reject on verify — so `extension_of_limit_sized_secret_verifies` applies to it — or (cisco) has its own size check and rejects
+    over-long secrets on verify as well -/
+theorem shipped_truncation_policies :
+    Gen.Verify.truncating.all (fun r => (r.2.2.1 && !r.2.2.2) || (!r.2.2.1 && r.2.2.2)) = true := by decide
 end Props.C05
